@@ -404,6 +404,12 @@ def run(chk, facts, info):
     rule_r10(chk, facts)
     rule_r11(chk, facts)
     rule_r12(chk, facts)
+    chk.rule('C03-R13', 'in p2bin, p2hex, alink and dasl every ChkIO() call stands directly under a failure test of the '
+             'operation it checks or is preceded on every path by errno = 0: a well-formed input is not rejected with '
+             'an I/O error because of a stale errno', min_instances=100)
+    n13 = errno_rule(chk, facts, 'C03-R13', ['p2bin', 'p2hex', 'alink', 'dasl'])
+    if n13 < 100:
+        raise AnalysisBroken('only %d ChkIO call sites found in the tools' % n13)
     chk.note('Decided: divisor non-zero (R1), stack-head null guards (R2), external integer bounds (R3), '
              'string-copy capacities (R4). Not decided: hangs, heap lifetime, code generators\' private buffers.')
     chk.assumptions.append('malloc results are non-null; zero-initialised globals with a non-zero default are '
